@@ -41,6 +41,8 @@ def main(tier, args):
     ldepth = "6" if quick else "7"
     for tr, eng, lane in (("unix", "epoll", "hdr"), ("unix", "epoll", "big"), ("unix", "epoll", "multi"), ("tcp", "epoll", "multi"), ("unix", "epoll", "mw")):
         jobs.append(("pipe:%s-%s-%s" % (tr, eng, lane), [pipe, tr, eng, ldepth, "3", lane]))
+    for tr, eng in (("unix", "epoll"), ("tcp", "epoll")):      # hostile Content-Length values against the real server (small: the lane reaches its fixpoint at depth 4)
+        jobs.append(("pipe:%s-%s-hcl" % (tr, eng), [pipe, tr, eng, "4" if quick else "5", "3", "hcl"]))
     # (1) parser half, engine I
     nsplit, nbytes, nmut = 8, 3, 2
     for s in range(nsplit):
@@ -66,8 +68,11 @@ def main(tier, args):
         "Connection: keep-alive[, TE], bodies containing CRLFCRLF / a whole request / a bare CRLF, body lengths 10,12,99,100,255,256,300,1023,1024,4096,5000) alone, before and after a grammar request "
         "and doubled: every 1-cut split (2-cut when short) + uniform chunks, and one 66000-byte body (cuts in head/middle/tail, chunks 64..4096); "
         "oracle = request sequence (method,target,version,headers,body) equal to the unsplit stream and to the generator/hand-written expectation, parse() return <= size given. "
-        "(b) every byte string of length <=%d over {G,E,T,P,SP,/,:,CR,LF,H,1,.,0,x} behind 7 valid prefixes (one segment, and prefix|bytes); 185 single-field mutations of a valid request "
-        "x 3 contexts x every 1-cut split (2-cut if <=%d bytes) + uniform chunks: no exception escapes, ASan/UBSan clean, feed loop and parse() terminate; and whenever the unsplit mutated stream "
+        "(b) every byte string of length <=%d over {G,E,T,P,SP,/,:,CR,LF,H,1,.,0,x} behind 7 valid prefixes (one segment, and prefix|bytes); 277 single-field mutations of a valid request "
+        "(incl. hostile Content-Length values: every negative length -1..-(head size+4), signs/zeros/blanks, both signs around 2^31, 2^32, 2^63, 2^64) "
+        "x 3 contexts x every 1-cut split (2-cut if <=%d bytes) + uniform chunks: no exception escapes, ASan/UBSan clean, feed loop and parse() terminate (step bound: a request delivered while "
+        "nothing was consumed = the server's receive loop never ends; a request that consumed less than its own body + blank line is reported too); for every Content-Length value mutation "
+        "(except -1 = the parser's 'no length' mark) the outcome (requests, reject/wait) is the same for every split; and whenever the unsplit mutated stream "
         "parses completely into requests whose Content-Length equals the body delivered, every one of those splits must give the same request sequence. "
         "(H) real http::server::Server + TcpServer + loop over real connections, single-threaded, fork per history (ASan/UBSan): unix-domain socket on epoll and select, loopback TCP on epoll; "
         "BFS (canonical state = per-connection bookkeeping, parser state, buffers, write event, pending handlers and deferred next() calls, per-client model) over histories of depth <=%d with <=%d/%d/%d requests of: "
@@ -77,7 +82,10 @@ def main(tier, args):
         "must not close; HTTP/1.1 + 'TE, close' and 'close' close); big (12 KB responses against a minimal server-side SO_SNDBUF: several partial writes per response, small responses queued behind them, "
         "closing response big or small; context log on); multi (two connections at once with interleaved requests and delays, the client closing a connection with or without responses outstanding and "
         "reconnecting into the freed slot, <=2 reconnects; also on loopback TCP; per-connection oracle incl. 'response written to another connection'; context log on); mw (two callbacks: the first "
-        "defers next() by 0|1|2 passes, the second - registered through use(Middleware*) - answers in its callback or 1 pass later; context log on). "
+        "defers next() by 0|1|2 passes, the second - registered through use(Middleware*) - answers in its callback or 1 pass later; context log on); hcl (unix and tcp: after 0-2 valid requests one request "
+        "with one of 29 hostile Content-Length values - negative incl. exactly -(size of its own head) and +-1/+5 around it, signed, zero-padded, blank, empty, around 2^31/2^32/2^63/2^64 - in one segment or "
+        "cut in two, then optionally a valid request: judged by crash/hang freedom and the stream rules; watchdog = a loop pass that enters the handler >40 times is reported with its history, a busy pass "
+        "without handler calls by the 15 s CPU-time watchdog). "
         "Oracle after settling (passes until nothing moves), per connection: every request handed to the handler is the one sent, handed once and in order; exactly one response per delivered request in "
         "request order, byte-identical to the handler's (tagged bodies); nothing after the response to the closing request; EOF after it; every request up to the closing one reaches the handler; "
         "a connection closed by the client is judged for crash/hang freedom and the stream rules up to the close only"
